@@ -10,8 +10,17 @@
 package c14
 
 import (
+	"bufio"
+	"crypto/ecdsa"
+	"crypto/elliptic"
+	crand "crypto/rand"
+	"crypto/tls"
+	"crypto/x509"
+	"crypto/x509/pkix"
+	"errors"
 	"fmt"
 	"io"
+	"math/big"
 	"math/rand"
 	"net"
 	"os"
@@ -42,7 +51,41 @@ type tconn struct {
 	timeoutAtEnd bool
 	rec          *connRec
 	park         *parkSlot // per-IP Serve cases: park the worker that closes this conn at wp.afterClose
+
+	// fault plan: from the n-th call on (1-based, 0 = never) the call fails, as on a connection whose peer is gone
+	failWriteAt    int
+	failDeadlineAt int
+	closeErr       bool // Close closes the conn and nevertheless returns an error (like tls.Conn without close_notify)
+	writes         atomic.Int32
+	deadlines      atomic.Int32
+	closes         atomic.Int32
+	faults         atomic.Int32
 }
+
+var errPeerGone = &net.OpError{Op: "write", Net: "tcp", Err: errors.New("broken pipe")}
+var errCloseNotify = errors.New("tls: failed to send closeNotify alert (but connection was closed anyway): write tcp: broken pipe")
+
+func (c *tconn) Write(p []byte) (int, error) {
+	if n := int(c.writes.Add(1)); c.failWriteAt > 0 && n >= c.failWriteAt {
+		c.faults.Add(1)
+		c.Note("WRITEFAIL", "")
+		return 0, errPeerGone
+	}
+	return c.Scripted.Write(p)
+}
+
+func (c *tconn) deadline() error {
+	if n := int(c.deadlines.Add(1)); c.failDeadlineAt > 0 && n >= c.failDeadlineAt {
+		c.faults.Add(1)
+		c.Note("DEADLINEFAIL", "")
+		return &net.OpError{Op: "set", Net: "tcp", Err: errors.New("use of closed network connection")}
+	}
+	return nil
+}
+
+func (c *tconn) SetDeadline(time.Time) error      { return c.deadline() }
+func (c *tconn) SetReadDeadline(time.Time) error  { return c.deadline() }
+func (c *tconn) SetWriteDeadline(time.Time) error { return c.deadline() }
 
 // parkSlot forces the window between the worker's c.Close() and its StateClosed report: the goroutine that
 // closes the connection is parked at the wp.afterClose hook point until the acceptor has accepted (and
@@ -108,6 +151,12 @@ func (c *tconn) Read(p []byte) (int, error) {
 
 func (c *tconn) Close() error {
 	err := c.Scripted.Close()
+	if n := c.closes.Add(1); n > 1 {
+		err = errors.New("use of closed network connection")
+	} else if c.closeErr {
+		c.faults.Add(1)
+		err = errCloseNotify
+	}
 	c.rec.closeOnce.Do(func() {
 		if c.park != nil {
 			parkMu.Lock()
@@ -155,6 +204,10 @@ type histCfg struct {
 	Script    string `json:"script"`
 	TimeoutAt bool   `json:"timeout_at_end"`
 	Gate      bool   `json:"gate"` // first request blocks in the handler until released
+
+	FailWriteAt    int  `json:"fail_write_at,omitempty"`
+	FailDeadlineAt int  `json:"fail_deadline_at,omitempty"`
+	CloseErr       bool `json:"close_returns_error,omitempty"`
 }
 
 type connRec struct {
@@ -181,6 +234,7 @@ type caseCfg struct {
 	RMU              bool      `json:"reduce_memory_usage"`
 	ReadTimeout      bool      `json:"read_timeout_set"`
 	IdleTimeout      bool      `json:"idle_timeout_set"`
+	WriteTimeout     bool      `json:"write_timeout_set"`
 	DisableKeepalive bool      `json:"disable_keepalive"`
 	MaxReqPerConn    int       `json:"max_requests_per_conn"`
 	Reject           bool      `json:"reject"`
@@ -224,7 +278,7 @@ func buildRequest(rnd *rand.Rand, path string, extra string, http10 bool) string
 	return b.String()
 }
 
-var endings = []string{"eof", "eof", "garbage", "partial", "timeout-idle", "timeout-partial", "hijack", "hijack-nr", "reqclose", "handlerclose", "http10"}
+var endings = []string{"hcloseconn", "eof", "eof", "garbage", "partial", "timeout-idle", "timeout-partial", "hijack", "hijack-nr", "reqclose", "handlerclose", "http10"}
 var garbage = []string{"\x00\x01\x02 garbage\r\n\r\n", "GET\r\n\r\n", "GET / HTTP/1.1\r\nNoColonHere\r\n\r\n", "G@T / HTTP/1.1\r\n: x\r\n\r\n", " \r\n\r\n", "GET / HTTP/1.1\r\n\r\n"}
 
 func genHist(rnd *rand.Rand, gate bool) histCfg {
@@ -272,6 +326,30 @@ func genHist(rnd *rand.Rand, gate bool) histCfg {
 		}
 	case "http10":
 		b.WriteString(buildRequest(rnd, "/old", "", true))
+	case "hcloseconn":
+		b.WriteString(buildRequest(rnd, "/connclose", "", false))
+		if rnd.Intn(2) == 0 {
+			b.WriteString(buildRequest(rnd, "/after-close", "", false))
+		}
+	}
+	if !gate {
+		switch rnd.Intn(12) {
+		case 0, 1:
+			h.FailWriteAt = 1 + rnd.Intn(4)
+		case 2:
+			h.FailDeadlineAt = 1 + rnd.Intn(6)
+		case 3, 4:
+			h.CloseErr = true
+		}
+		if (h.Ending == "hijack") && rnd.Intn(3) == 0 {
+			// the response of the hijacking request is flushed inside the hijack block (bytes are buffered behind
+			// the request) and exactly that flush, or the SetDeadline after it, fails
+			if rnd.Intn(2) == 0 {
+				h.FailWriteAt, h.FailDeadlineAt = 1+rnd.Intn(2), 0
+			} else {
+				h.FailWriteAt, h.FailDeadlineAt = 0, 1+rnd.Intn(3)
+			}
+		}
 	}
 	h.Script = b.String()
 	switch rnd.Intn(5) {
@@ -304,7 +382,8 @@ func newRec(h histCfg) *connRec {
 	case "bounds":
 		frag = netx.FragBoundaries(append(append([]int(nil), rec.bounds...), len(script)))
 	}
-	rec.conn = &tconn{Scripted: netx.NewScripted(script, frag), timeoutAtEnd: h.TimeoutAt, rec: rec}
+	rec.conn = &tconn{Scripted: netx.NewScripted(script, frag), timeoutAtEnd: h.TimeoutAt, rec: rec,
+		failWriteAt: h.FailWriteAt, failDeadlineAt: h.FailDeadlineAt, closeErr: h.CloseErr}
 	return rec
 }
 
@@ -345,9 +424,30 @@ func waitFor(ch <-chan struct{}, d time.Duration) bool {
 
 var missingTerminal atomic.Int32
 
+// Wall-clock bounds only mean something while this process gets to run: a monitor goroutine sleeps 20 ms at a
+// time and notes when it woke up more than 1.5 s late. An expired terminal-call wait is inconclusive then.
+var lastStall atomic.Int64
+
+func stallMonitor(stop <-chan struct{}) {
+	for {
+		select {
+		case <-stop:
+			return
+		default:
+		}
+		t0 := time.Now()
+		time.Sleep(20 * time.Millisecond)
+		if time.Since(t0) > 1500*time.Millisecond {
+			lastStall.Store(time.Now().UnixNano())
+		}
+	}
+}
+
+func stalledSince(t time.Time) bool { return lastStall.Load() >= t.UnixNano() }
+
 func termGrace() time.Duration {
-	if missingTerminal.Load() >= 3 {
-		return 50 * time.Millisecond
+	if missingTerminal.Load() >= 10 {
+		return 300 * time.Millisecond
 	}
 	return termWait
 }
@@ -511,7 +611,12 @@ func interleavedCompleteLifecycles(seq []fasthttp.ConnState) bool {
 
 func runCase(r *mon.Run, i int) {
 	rnd := r.Rand("case", i)
-	cfg := caseCfg{Mode: "ServeConn", RMU: rnd.Intn(2) == 0, ReadTimeout: rnd.Intn(3) == 0, IdleTimeout: rnd.Intn(4) == 0}
+	caseStart := time.Now()
+	if rnd.Intn(30) == 0 {
+		runTLSCase(r, i, rnd)
+		return
+	}
+	cfg := caseCfg{Mode: "ServeConn", RMU: rnd.Intn(2) == 0, ReadTimeout: rnd.Intn(3) == 0, IdleTimeout: rnd.Intn(4) == 0, WriteTimeout: rnd.Intn(4) == 0}
 	if rnd.Intn(3) == 0 {
 		cfg.Mode = "Serve"
 	}
@@ -585,6 +690,9 @@ func runCase(r *mon.Run, i int) {
 	if cfg.IdleTimeout {
 		s.IdleTimeout = time.Hour
 	}
+	if cfg.WriteTimeout {
+		s.WriteTimeout = time.Hour
+	}
 	if cfg.Reject {
 		s.Concurrency = 1
 	}
@@ -618,6 +726,10 @@ func runCase(r *mon.Run, i int) {
 			<-gate
 		case strings.HasPrefix(p, "/hclose"):
 			ctx.SetConnectionClose()
+		case strings.HasPrefix(p, "/connclose"):
+			if tc != nil {
+				tc.Close() // the handler closes the connection itself: the server's own Close then returns an error
+			}
 		}
 		ctx.WriteString("ok:" + p)
 	}
@@ -777,17 +889,13 @@ func runCase(r *mon.Run, i int) {
 					incon = "connection not closed"
 				}
 			}
-			expected := 0
-			for _, rec := range recs {
-				if !strings.HasPrefix(string(rec.conn.Written()), "HTTP/1.1 429") {
-					expected++
-				}
-			}
+			// every connection is closed by now, so every StateNew has been reported (a connection turned away by
+			// the per-IP limit gets no call at all): wait for as many terminal calls as StateNew calls
 			deadline := time.After(termGrace())
 		waitTerm:
 			for incon == "" {
 				vmu.Lock()
-				n := terminals
+				n, expected := terminals, newsSeen
 				vmu.Unlock()
 				if n >= expected {
 					break
@@ -796,18 +904,26 @@ func runCase(r *mon.Run, i int) {
 				case <-termSig:
 				case <-deadline:
 					r.Event("perip_terminal_wait_expired", 1)
+					if stalledSince(caseStart) {
+						incon = "terminal-call wait expired while this process itself was stalled"
+						break waitTerm
+					}
 					missingTerminal.Add(1)
 					break waitTerm
 				}
 			}
 		} else if incon == "" {
 			for _, rec := range recs {
-				// Once a few connections were seen closed by the server without any terminal
+				// Once ten connections were seen closed by the server without any terminal
 				// hook call after the full watchdog, later cases wait only briefly (the
 				// violation is established; this only keeps a broken tree from taking hours).
 				if !waitFor(rec.term, termGrace()) {
 					// no terminal state: let the language monitor say so, but only if the server is done with the conn
 					if closed, _ := rec.conn.Closed(); closed {
+						if stalledSince(caseStart) {
+							incon = "terminal-call wait expired while this process itself was stalled"
+							break
+						}
 						missingTerminal.Add(1)
 						continue
 					}
@@ -879,6 +995,25 @@ func runCase(r *mon.Run, i int) {
 		if rec.cfg.TimeoutAt {
 			r.Event("read_timeouts_injected", 1)
 		}
+		if rec.conn.faults.Load() > 0 {
+			switch {
+			case rec.cfg.FailWriteAt > 0:
+				r.Event("write_errors_injected", 1)
+				if rec.hijacked.Load() {
+					r.Event("write_or_deadline_error_on_hijacking_conn", 1)
+				}
+			case rec.cfg.FailDeadlineAt > 0:
+				r.Event("setdeadline_errors_injected", 1)
+				if rec.hijacked.Load() {
+					r.Event("write_or_deadline_error_on_hijacking_conn", 1)
+				}
+			case rec.cfg.CloseErr:
+				r.Event("close_errors_injected", 1)
+			}
+		}
+		if rec.conn.closes.Load() > 1 {
+			r.Event("conns_closed_more_than_once", 1)
+		}
 	}
 	if perIP {
 		vmu.Lock()
@@ -914,7 +1049,16 @@ func runCase(r *mon.Run, i int) {
 	}
 	var cls []string
 	for _, h := range cfg.Conns {
-		cls = append(cls, fmt.Sprintf("%d%s/%s", h.NReq, h.Ending, h.Frag))
+		f := ""
+		switch {
+		case h.FailWriteAt > 0:
+			f = fmt.Sprintf("/wfail%d", h.FailWriteAt)
+		case h.FailDeadlineAt > 0:
+			f = fmt.Sprintf("/dfail%d", h.FailDeadlineAt)
+		case h.CloseErr:
+			f = "/closeerr"
+		}
+		cls = append(cls, fmt.Sprintf("%d%s/%s%s", h.NReq, h.Ending, h.Frag, f))
 	}
 	if cfg.StreamBody && cfg.RMU {
 		r.Event("cases_rmu_with_streamrequestbody", 1)
@@ -925,16 +1069,173 @@ func runCase(r *mon.Run, i int) {
 	}
 }
 
+// ---- real TLS connections (tls.Server over a pipe) ---------------------------------------------------
+//
+// The server side is a *tls.Conn; the client either closes properly (close_notify) or drops the transport,
+// in which case the server's own tls.Conn.Close returns "failed to send closeNotify alert (but connection
+// was closed anyway)". Either way the hook must see exactly one terminal StateClosed.
+
+var (
+	tlsOnce sync.Once
+	tlsCfg  *tls.Config
+)
+
+func serverTLSConfig() *tls.Config {
+	tlsOnce.Do(func() {
+		key, err := ecdsa.GenerateKey(elliptic.P256(), crand.Reader)
+		if err != nil {
+			panic(err)
+		}
+		tmpl := &x509.Certificate{SerialNumber: big.NewInt(14), Subject: pkix.Name{CommonName: "c14.example"},
+			NotBefore: time.Now().Add(-time.Hour), NotAfter: time.Now().Add(240 * time.Hour),
+			KeyUsage: x509.KeyUsageDigitalSignature, ExtKeyUsage: []x509.ExtKeyUsage{x509.ExtKeyUsageServerAuth}, DNSNames: []string{"c14.example"}}
+		der, err := x509.CreateCertificate(crand.Reader, tmpl, tmpl, &key.PublicKey, key)
+		if err != nil {
+			panic(err)
+		}
+		tlsCfg = &tls.Config{Certificates: []tls.Certificate{{Certificate: [][]byte{der}, PrivateKey: key}}}
+	})
+	return tlsCfg
+}
+
+func runTLSCase(r *mon.Run, i int, rnd *rand.Rand) {
+	type tcfg struct {
+		Mode   string `json:"mode"`
+		RMU    bool   `json:"reduce_memory_usage"`
+		NReq   int    `json:"requests"`
+		Ending string `json:"client_ending"` // drop-transport | close-notify | drop-mid-request
+	}
+	cfg := tcfg{Mode: "ServeConn", RMU: rnd.Intn(2) == 0, NReq: rnd.Intn(3), Ending: []string{"drop-transport", "drop-transport", "close-notify", "drop-mid-request"}[rnd.Intn(4)]}
+	if rnd.Intn(2) == 0 {
+		cfg.Mode = "Serve"
+	}
+	tlsStart := time.Now()
+	cli, srvSide := net.Pipe()
+	sc := tls.Server(srvSide, serverTLSConfig())
+	var mu sync.Mutex
+	var seq []stateEv
+	foreign := 0
+	judged := false
+	term := make(chan struct{})
+	var termOnce sync.Once
+	s := &fasthttp.Server{ReduceMemoryUsage: cfg.RMU, Logger: nolog{}, NoDefaultServerHeader: true, MaxIdleWorkerDuration: 5 * time.Millisecond,
+		Handler: func(ctx *fasthttp.RequestCtx) { ctx.WriteString("ok") }}
+	s.ConnState = func(nc net.Conn, st fasthttp.ConnState) {
+		mu.Lock()
+		if nc != net.Conn(sc) {
+			foreign++
+		}
+		late := judged
+		seq = append(seq, stateEv{St: st, Delivered: 1 << 30, Late: late})
+		mu.Unlock()
+		if late {
+			r.Violation(i, "call-after-"+stName(st)+"-late", "hook called after the TLS connection had reached its terminal state and the case was over", cfg)
+		}
+		if st == fasthttp.StateClosed || st == fasthttp.StateHijacked {
+			termOnce.Do(func() { close(term) })
+		}
+	}
+	clientDone := make(chan struct{})
+	go func() {
+		defer close(clientDone)
+		cc := tls.Client(cli, &tls.Config{InsecureSkipVerify: true})
+		cli.SetDeadline(time.Now().Add(watchdog))
+		if err := cc.Handshake(); err != nil {
+			cli.Close()
+			return
+		}
+		br := bufio.NewReader(cc)
+		for j := 0; j < cfg.NReq; j++ {
+			if _, err := cc.Write([]byte(fmt.Sprintf("GET /t%d HTTP/1.1\r\nHost: c14.example\r\n\r\n", j))); err != nil {
+				break
+			}
+			var resp fasthttp.Response
+			if err := resp.Read(br); err != nil {
+				break
+			}
+		}
+		switch cfg.Ending {
+		case "close-notify":
+			cc.Close()
+		case "drop-mid-request":
+			cc.Write([]byte("GET /partial HTTP/1.1\r\nHo"))
+			cli.Close()
+		default:
+			cli.Close() // the transport goes away without close_notify
+		}
+	}()
+	incon := ""
+	var serveErr error
+	if cfg.Mode == "ServeConn" {
+		serveErr = s.ServeConn(sc)
+	} else {
+		ln := &scriptListener{ch: make(chan net.Conn), closed: make(chan struct{})}
+		served := make(chan struct{})
+		go func() { defer close(served); s.Serve(ln) }()
+		select {
+		case ln.ch <- sc:
+		case <-time.After(watchdog):
+			incon = "listener did not accept"
+		}
+		if incon == "" && !wait(clientDone) {
+			incon = "tls client did not finish"
+		}
+		if incon == "" && !waitFor(term, termGrace()) && stalledSince(tlsStart) {
+			incon = "terminal-call wait expired while this process itself was stalled"
+		} // other expiry: judged as it stands (no-terminal-state)
+		ln.Close()
+		if !wait(served) && incon == "" {
+			incon = "Serve did not return"
+		}
+	}
+	if incon == "" && !wait(clientDone) {
+		incon = "tls client did not finish"
+	}
+	if incon != "" {
+		cli.Close()
+		r.Inconclusive(fmt.Sprintf("tls case %d: %s", i, incon))
+		return
+	}
+	mu.Lock()
+	got := append([]stateEv(nil), seq...)
+	judged = true
+	nforeign := foreign
+	mu.Unlock()
+	rec := &connRec{}
+	tr := trace(got)
+	for _, f := range judge(cfg.Mode, cfg.RMU, rec, got, r, false) {
+		key := f.key
+		if key == "no-terminal-state" && cfg.Mode == "Serve" {
+			missingTerminal.Add(1)
+		}
+		r.Violation(i, key, fmt.Sprintf("TLS %s rmu=%v requests=%d client=%s: %s; hook trace: [%s]; ServeConn error: %v", cfg.Mode, cfg.RMU, cfg.NReq, cfg.Ending, f.what, tr, serveErr), map[string]any{"config": cfg, "trace": tr})
+	}
+	if nforeign > 0 {
+		r.Violation(i, "foreign-conn-in-hook", fmt.Sprintf("%d hook calls with a net.Conn that is not the *tls.Conn given to the server", nforeign), cfg)
+	}
+	r.Event("tls_connections_judged", 1)
+	r.Event("connections_judged", 1)
+	r.Event("hook_calls", len(got))
+	if serveErr != nil && strings.Contains(serveErr.Error(), "closeNotify") {
+		r.Event("tls_close_returned_closenotify_error", 1)
+	}
+	r.Case(fmt.Sprintf("tls|%s|rmu=%v|n=%d|%s", cfg.Mode, cfg.RMU, cfg.NReq, cfg.Ending), len(got) > 0)
+}
+
 func TestC14(t *testing.T) {
 	r := mon.Start(t, "C14")
 	defer r.Finish()
-	r.Rule("case = Server{ReduceMemoryUsage, StreamRequestBody, MaxConnsPerIP 0|1-3 (remote 10.0.0.1/2), ReadTimeout/IdleTimeout set, DisableKeepalive, MaxRequestsPerConn} x {ServeConn, Serve over a listener handing out 1-3 scripted conns} x per-connection history {0-3 well-formed requests (GET/HEAD/POST/PUT, CL/chunked/Expect bodies) then eof | garbage | partial request | read timeout while idle | read timeout inside a request | hijack (with/without response) | Connection: close by request / by handler | HTTP/1.0} x fragmentation {1 byte, fixed n, request boundaries, everything at once = pipelined} x 503 rejection by Concurrency=1 (first conn parked in its handler); distinct = (mode, config, per-connection (requests, ending, fragmentation)); non-trivial = at least one ConnState call was observed")
+	r.Rule("case = Server{ReduceMemoryUsage, StreamRequestBody, MaxConnsPerIP 0|1-3 (remote 10.0.0.1/2), ReadTimeout/IdleTimeout set, DisableKeepalive, MaxRequestsPerConn} x {ServeConn, Serve over a listener handing out 1-3 scripted conns} x per-connection history {0-3 well-formed requests (GET/HEAD/POST/PUT, CL/chunked/Expect bodies) then eof | handler closes the conn itself | garbage | partial request | read timeout while idle | read timeout inside a request | hijack (with/without response) | Connection: close by request / by handler | HTTP/1.0} x fragmentation {1 byte, fixed n, request boundaries, everything at once = pipelined} x fault plan {none, every Write from the n-th on fails, every Set*Deadline from the n-th on fails (in particular the flush / SetDeadline inside the hijack block), Close closes but returns an error} x 503 rejection by Concurrency=1 (first conn parked in its handler); distinct = (mode, config, per-connection (requests, ending, fragmentation)); non-trivial = at least one ConnState call was observed")
 	r.Assume("with MaxConnsPerIP = 0 connections are keyed by the net.Conn value handed to the hook (the conn given to ServeConn / returned by Accept). With MaxConnsPerIP > 0 fasthttp hands a pooled wrapper to the hook: every conn VALUE seen by the hook must then carry a concatenation of complete lifecycles once all connections of the case have finished (lifecycle-tolerant monitor); transitions and the byte join are additionally checked per connection as far as the wrapper still points to it (reflection on its embedded Conn); connections turned away by the per-IP limit (429) get no hook call and are not judged; hijack handlers in those cases return only after StateHijacked was reported")
 	r.Assume("request boundaries of the client script are those of the independent h1 reference on well-formed generated requests; 'received' = handed out by the scripted conn's Read (netx.Scripted.Delivered sampled inside the hook)")
 	r.Assume("a read timeout is modelled by a conn whose Read returns a net.OpError wrapping os.ErrDeadlineExceeded once the script is exhausted (the scripted conn ignores deadlines)")
+	r.Assume("1/30 of the cases use a real *tls.Conn (tls.Server over net.Pipe, self-signed P-256 certificate made at start) through ServeConn and Serve; the client closes with close_notify, drops the transport, or drops it inside a request; only the state machine is judged there (no byte counter)")
 	r.Assume("which terminal state (closed vs hijacked) is reported is not judged, only that there is exactly one and nothing follows it until the case ends (hijack handler finished, Serve returned)")
 	r.Assume("in Serve mode the terminal hook call of a connection the server has already closed is awaited for 10 s (it directly follows Close in the worker) before the connection is judged no-terminal-state")
 	r.Assume("in per-IP Serve cases the worker that closed the first connection is parked at the wp.afterClose hook point (attributed by goroutine id) until StateNew of the next connection from the same IP was reported, at most 3 s; this only forces a schedule, the verdict comes from the per-value lifecycle monitor")
+	stopStall := make(chan struct{})
+	go stallMonitor(stopStall)
+	defer close(stopStall)
 	parkRun = r
 	fasthttp.VerifSetPointHook(pointHook)
 	defer fasthttp.VerifSetPointHook(nil)
@@ -951,6 +1252,13 @@ func TestC14(t *testing.T) {
 	})
 	if !r.Replaying() {
 		r.Require("connections_judged", n)
+		r.Require("write_errors_injected", n/40)
+		r.Require("setdeadline_errors_injected", n/400)
+		r.Require("close_errors_injected", n/40)
+		r.Require("write_or_deadline_error_on_hijacking_conn", n/400)
+		r.Require("conns_closed_more_than_once", n/100)
+		r.Require("tls_connections_judged", n/60)
+		r.Require("tls_close_returned_closenotify_error", 1)
 		r.Require("active_bytejoin_checked", n/2)
 		r.Require("terminal_hijacked", 1)
 		r.Require("rejections_503", 1)
